@@ -282,7 +282,20 @@ fn infeasible_case<K: Kit>(sc: &Scenario, seq: &[u8], rep: &mut Report) {
             let _ = rig.construct(seq);
             vec![rig.drv.solve(LONG).map(|p| p.len())]
         } else {
-            rig.feed(seq).into_iter().map(|(r, _)| r.map(|p| p.len())).collect()
+            let mut out: Vec<Result<usize, PlanningError>> = rig.feed(seq).into_iter().map(|(r, _)| r.map(|p| p.len())).collect();
+            // the same samples once more on a fresh object, one solve call per sample: every call is cut by
+            // its deadline after a single iteration, and whatever a cut call leaves behind (trees handed
+            // back in another order, a flag) must not let a later call claim a path
+            let mut rig2 = Rig::<K>::new(sc, true);
+            seams::set_valid_cap(50_000_000);
+            for l in seq {
+                let (r, used) = rig2.solve_script(&[*l]);
+                out.push(r.map(|p| p.len()));
+                if used == 0 {
+                    break;
+                }
+            }
+            out
         }
     });
     match run {
